@@ -508,13 +508,13 @@ static void runMergeTask(W& w, const MergeTask& t, char oracle)
 
 // ---------------------------------------------------------------------------------------------
 // C17 alphabet (state-relative)
-constexpr int SYM_PER_EP = 21;
+constexpr int SYM_PER_EP = 22;
 // endpoint D takes part with a reduced symbol set {U, F, I, L, payload-type 0}
 constexpr int ND = 5;
 static const int kDKinds[ND] = {0, 2, 5, 6, 12};
 constexpr int EPLESS = 3 * SYM_PER_EP + ND;   // first endpoint-less symbol
 constexpr int NSYM = EPLESS + 3;
-static const char* kSymName[SYM_PER_EP] = {"U", "UU", "F", "Ft", "F2", "I", "L", "Ib", "Lb", "Lv", "Lt", "It", "Z", "E", "O", "H", "UF", "P", "UI", "UL", "P1"};
+static const char* kSymName[SYM_PER_EP] = {"U", "UU", "F", "Ft", "F2", "I", "L", "Ib", "Lb", "Lv", "Lt", "It", "Z", "E", "O", "H", "UF", "P", "UI", "UL", "P1", "T0"};
 
 static std::string symName(int sym)
 {
@@ -615,6 +615,19 @@ static Bytes symbolFrame(int sym, const ref::ReassemblyModel& m, bool& isNull, i
         case 16: fh.seq = 300; return ref::buildFrame(fh, {seg(0, 2, 17), seg(ref::SEG_FIRST, 3, 18)});
         // an unsegmented message followed, in the SAME frame, by a continuation with the right counter: the first supersedes
         // the open message, so the continuation is an orphan
+        case 21:
+        {
+            // a buffer that STARTS LIKE TECMP (first byte 0) but is shorter than a TECMP header, whose bytes 2..3 / 5 equal this
+            // endpoint's device / stream id as a CMP header would carry them (e.g. a snap-length-truncated TECMP frame):
+            // it is routed to the TECMP decoder and must not touch any capture-module endpoint
+            Bytes f(20, 0);
+            ref::wr(&f[2], e.dev, 2);
+            f[4] = 3; f[5] = e.str; f[6] = 0; f[7] = 9;
+            for (size_t i = 8; i < f.size(); ++i)
+                f[i] = (uint8_t) (0x30 + i);
+            ep = -1;   // endpoint-less for the isolation oracle: fed to the shared decoder only
+            return f;
+        }
         case 20:
         {
             // frame header plus ONE byte: the shortest remainder that is not a message (aborts like any invalid message)
@@ -663,6 +676,7 @@ static std::vector<int> sharpAlphabet()
     for (int ep = 0; ep < 2; ++ep)
         for (int k : {0, 2, 5, 6, 12, 19})
             a.push_back(ep * SYM_PER_EP + k);
+    a.push_back(0 * SYM_PER_EP + 21);   // truncated TECMP-like buffer carrying A's ids
     for (int i = 0; i < ND; ++i)
         a.push_back(3 * SYM_PER_EP + i);
     return a;
@@ -1212,8 +1226,8 @@ int main(int argc, char** argv)
             run.rule = "on every path of the C05 interleaving exploration and of the C17 symbol tree/BFS the shared real Decoder is compared, frame by "
                        "frame, with a solo real Decoder per endpoint that is fed only that endpoint's frames; distinct = distinct (state, delivery) outcomes";
         else
-            run.rule = "71-symbol state-relative alphabet (per endpoint: U, UU, F, F+trailing@65535, F v2/status@32767, I/L correct, I/L counter+2, L wrong "
-                       "version, L wrong type, I+trailing, payload-type 0, error flag, overrunning length, header-only, [U][F], [U][I], [U][L], partial header, header + 1 byte; plus "
+            run.rule = "74-symbol state-relative alphabet (per endpoint: U, UU, F, F+trailing@65535, F v2/status@32767, I/L correct, I/L counter+2, L wrong "
+                       "version, L wrong type, I+trailing, payload-type 0, error flag, overrunning length, header-only, [U][F], [U][I], [U][L], partial header, header + 1 byte, truncated TECMP-like buffer carrying the endpoint's ids; plus "
                        "5-byte buffer, nullptr, TECMP frame): unmerged tree of copied real Decoders + BFS merged on (model state, verifPending dump); "
                        "invariant after every transition; distinct = distinct merged states";
         return run.finish();
